@@ -78,7 +78,7 @@ class Sphere(CenteredScatterer):
 
     @property
     def num_domains(self):
-        if self.n:
+        if self.n is not None:
             if np.isscalar(self.n):
                 return 1
             else:
